@@ -53,6 +53,40 @@ type ldoc struct {
 type tokGen struct {
 	n int
 	r *hx.Rng
+
+	// repeat: heading texts recur. About half of the headings take the text of a
+	// heading generated before (a few texts recur often, like "Overview" under every
+	// chapter), at whatever level, page and parent the new heading has, and about
+	// half of the headings are delivered as heading-like paragraphs. All other
+	// texts stay unique, and a heading text is never part of another text, so a
+	// repeated heading is identified by its position among the occurrences of its text.
+	repeat bool
+	heads  []string
+}
+
+// heading makes the text of one heading of lo..hi words.
+func (g *tokGen) heading(lo, hi int) string {
+	if g.repeat && len(g.heads) > 0 && g.r.Chance(1, 2) {
+		i := g.r.Intn(len(g.heads))
+		if j := g.r.Intn(len(g.heads)); j < i {
+			i = j // the early texts recur most
+		}
+		return pad(g.r, g.heads[i])
+	}
+	raw := g.text("h", g.r.Range(lo, hi))
+	if g.repeat {
+		g.heads = append(g.heads, raw)
+	}
+	return pad(g.r, raw)
+}
+
+// tocChance: one heading in tocChance is delivered as a paragraph that matches
+// Layout.Headings (the PDF path) instead of a model.Heading element.
+func (g *tokGen) tocChance(plain int) int {
+	if g.repeat {
+		return 2
+	}
+	return plain
 }
 
 func (g *tokGen) word(kind string) string {
@@ -213,8 +247,8 @@ func paraWords(r *hx.Rng, maxLen int, budget *int) int {
 
 // generator --------------------------------------------------------------------------
 
-func genDoc(r *hx.Rng, sz sizeCase) ldoc {
-	g := &tokGen{r: r}
+func genDoc(r *hx.Rng, sz sizeCase, repeat bool) ldoc {
+	g := &tokGen{r: r, repeat: repeat}
 	d := ldoc{AddPage: r.Chance(1, 4)}
 	if r.Bool() {
 		d.Title = "Title " + g.word("d")
@@ -245,8 +279,8 @@ func genDoc(r *hx.Rng, sz sizeCase) ldoc {
 			switch r.Intn(12) {
 			case 0, 1, 2:
 				lv := r.Range(1, 6)
-				h := lelem{Kind: "h", Level: lv, Text: pad(r, g.text("h", r.Range(1, 4)))}
-				if !pg.NoLayout && r.Chance(1, 5) {
+				h := lelem{Kind: "h", Level: lv, Text: g.heading(1, 4)}
+				if !pg.NoLayout && r.Chance(1, g.tocChance(5)) {
 					h.TOC = true
 				}
 				pg.Elems = append(pg.Elems, h)
